@@ -1,5 +1,6 @@
 # unit `sign` (C04, C10): hyper_client.rs canonical string + exemption list, helpers.rs compute_signature, signing call sites
 import os
+import re
 from vxlib import Undecided
 HERE = os.path.dirname(os.path.abspath(__file__))
 CON = os.path.dirname(HERE)
@@ -277,7 +278,7 @@ BR_H3 = """
         }"""
 
 
-def fmt_e9_pos(u, sf, it, k, types, argspecs, name):
+def fmt_e9_pos(u, sf, it, k, types, argspecs, name, wrap=None):
     """like fmt_e9, for format! calls whose arguments are arbitrary expressions: the arguments stay at the call site (passed
     by reference, in order), the stub is `format!(LIT, vx_a0, vx_a1, ..)` with LIT copied from the tree and the contract
     generated from LIT ($ in an argspec = the stub parameter)"""
@@ -300,9 +301,73 @@ def fmt_e9_pos(u, sf, it, k, types, argspecs, name):
         j += 1
     lit = lit[:j + 1]
     params = ", ".join("vx_a%d: %s" % (i, t) for i, t in enumerate(types))
-    args = ", ".join(("&(%s)" % x) if types[i].startswith("&") and types[i] != "&str" else x for i, x in enumerate(fargs))
+    if wrap is None:
+        wrap = [t.startswith("&") and t != "&str" for t in types]
+    args = ", ".join(("&(%s)" % x) if wrap[i] else x for i, x in enumerate(fargs))
     body = "format!(%s, %s)" % (lit, ", ".join("vx_a%d" % i for i in range(len(fargs))))
     return ((a, b), None, params, args, "String", "    ensures r@ == " + " + ".join(parts) + ",", dict(name=name, local=True, body=body))
+
+
+def ext_fns_verbatim(u, sf, modname, uses, fn_paths):
+    """E1: functions copied byte-for-byte into a plain-Rust module OUTSIDE verus!{} (rustc checks them against the real
+    crates; Verus never looks at them: they are reached only through E9 stubs whose contracts are assumptions)."""
+    from vxlib import apply_edits
+    saved = u.pieces
+    u.pieces = u.ext_pieces
+    u.emit("pub mod %s {\n#![allow(unused_imports, dead_code, non_snake_case)]\n%s" % (modname, uses), "glue", "E1")
+    for p in fn_paths:
+        it = sf.item(p, "fn")
+        u.pieces += apply_edits(sf, it["span"][0], it["span"][1], [])
+        u.emit("", "glue")
+        u.rule("E1", "fn %s kept outside verus! verbatim (not verified)  <- %s:%d" % (p, sf.rel, sf.line_of(it["span"][0])))
+    u.emit("} // mod %s" % modname, "glue", "E1")
+    u.pieces = saved
+
+
+SITE_PRE = """broadcast use vstd::std_specs::hash::group_hash_axioms;
+broadcast use axiom_string_obeys_key_model;
+proof { lits_site_headers(); }
+"""
+
+
+def site_fn(u, sf, path, ty):
+    """one of the agent's own signing sites: reads the (key id, key) pair from the key keeper and calls hyper_client::get"""
+    it = sf.item(path, "fn")
+    merrs = [c for c in it["calls"] if c["kind"] == "method" and c["callee"] == "map_err"]
+    e9 = []
+    for n, c in enumerate(merrs):
+        recv = sf.s(c["receiver"][0], c["receiver"][1])
+        tail = sf.s(c["receiver"][1], c["span"][1])
+        if ".parse::<hyper::Uri>()" in recv:
+            # E9: String::parse::<Uri>() and the closure building the crate's (opaque) error value; `url` is moved into the closure
+            e9.append((tuple(c["span"]), None, "url: String", "url", "Result<hyper::Uri>", "", dict(name="vx_e9_parse_uri_%s" % it["name"], local=True)))
+        else:
+            # E9: the closure building the crate's (opaque) error value; the receiver (the call of hyper_client::get) stays at the site
+            e9.append((tuple(c["span"]), None, "res: Result<%s>" % ty, recv, "Result<%s>" % ty, "", dict(name="vx_e9_wrap_error_%s" % it["name"], local=True, body="res" + tail)))
+    u.take_fn(sf, path, pre_body=SITE_PRE, e9=e9, contract="")
+
+
+def ext_types_and_impls(u, sf, modname, uses, type_paths, impl_paths):
+    """E1: type definitions (made pub, E2) and the listed trait impls copied byte-for-byte into a plain-Rust module outside verus!{}"""
+    from vxlib import apply_edits
+    u.take_ext(sf, type_paths, modname, uses=uses, opaque=False)
+    close = u.ext_pieces.pop()
+    assert close.text.startswith("} // mod " + modname)
+    saved = u.pieces
+    u.pieces = u.ext_pieces
+    for p in impl_paths:
+        it = sf.item(p, "impl")
+        u.pieces += apply_edits(sf, it["span"][0], it["span"][1], [])
+        u.emit("", "glue")
+        u.rule("E1", "impl %s kept outside verus! verbatim  <- %s:%d" % (p, sf.rel, sf.line_of(it["span"][0])))
+    u.ext_pieces.append(close)
+    u.pieces = saved
+
+
+ATT_PRE = """broadcast use vstd::std_specs::hash::group_hash_axioms;
+broadcast use axiom_string_obeys_key_model, axiom_to_string_string;
+proof { lits_site_headers(); assert(latched(key.guid@, key.key@)); }
+"""
 
 
 def build(u):
@@ -312,6 +377,13 @@ def build(u):
     err = u.src("proxy_agent/src/common/error.rs")
     mh = u.src("proxy_agent_shared/src/misc_helpers.rs")
     key = u.src("proxy_agent/src/key_keeper/key.rs")
+    lg = u.src("proxy_agent/src/common/logger.rs")
+    kkw = u.src("proxy_agent/src/shared_state/key_keeper_wrapper.rs")
+    wsc = u.src("proxy_agent/src/host_clients/wire_server_client.rs")
+    imc = u.src("proxy_agent/src/host_clients/imds_client.rs")
+    gst = u.src("proxy_agent/src/host_clients/goal_state.rs")
+    ps = u.src("proxy_agent/src/proxy/proxy_server.rs")
+    iin = u.src("proxy_agent/src/host_clients/instance_info.rs")
     u.features += ["allocator_api", "sized_hierarchy", "pattern", "const_destruct", "const_trait_impl"]
     for f in ("str_axioms.rs", "ext_types.rs", "std_string.rs", "http.rs"):
         u.raw(open(os.path.join(COMMON, f)).read())
@@ -322,6 +394,9 @@ def build(u):
     with u.mod("proxy_agent_shared"):
         with u.mod("misc_helpers"):
             u.take_fn(mh, "get_date_time_rfc1123_string", external_body=True, contract="        ensures vis(r@),   // an RFC 1123 date is ASCII text\n")
+    # the upstream write primitive of the agent's own calls (hyper plumbing): outside verus!, reached through vx_e9_send_request
+    ext_fns_verbatim(u, hc, "vx_ext_send", "use crate::common::error::{Error, HyperErrorType};\nuse crate::common::result::Result;\nuse hyper::Request;\nuse hyper_util::rt::TokioIo;\nuse tokio::net::TcpStream;",
+                     ["send_request", "build_http_sender"])
     with u.mod("key_keeper"):
         with u.mod("key"):
             u.take(key, "Key", "struct")
@@ -331,8 +406,10 @@ def build(u):
         with u.mod("result", uses="use super::error::Error;"):
             u.raw("pub type Result<T> = core::result::Result<T, Error>;")
         with u.mod("constants"):
-            for n in ("CLAIMS_IS_ROOT", "CLAIMS_HEADER", "AUTHORIZATION_HEADER", "DATE_HEADER", "AUTHORIZATION_SCHEME"):
+            for n in ("CLAIMS_IS_ROOT", "CLAIMS_HEADER", "AUTHORIZATION_HEADER", "DATE_HEADER", "AUTHORIZATION_SCHEME", "METADATA_HEADER"):
                 u.take(consts, n, "const")
+        with u.mod("logger"):
+            u.take_fn(lg, "write_warning", external_body=True)
         with u.mod("helpers", uses="use super::error::Error;\nuse super::result::Result;"):
             u.take_fn(hp, "compute_signature",
                 pre_body="broadcast use group_as_ref_bytes;",
@@ -341,7 +418,7 @@ def build(u):
                 contract="""
         ensures r matches Ok(s) ==> s@ == mac_spec(hex_encoded_key@, input_to_sign@),  // @C04.compute_signature.mac_is_hex_hmac_sha256_under_the_key
 """)
-        with u.mod("hyper_client", uses="use super::error::{Error, HyperErrorType};\nuse super::result::Result;\nuse super::{constants, helpers};\nuse http::request::Builder;\nuse http::request::Parts;\nuse http::Method;\nuse hyper::body::Bytes;\nuse hyper::Request;\nuse hyper::Uri;\nuse itertools::Itertools;\nuse std::collections::HashMap;\nuse crate::proxy_agent_shared::misc_helpers;\nuse http_body_util::combinators::BoxBody;"):
+        with u.mod("hyper_client", uses="use super::error::{Error, HyperErrorType};\nuse super::result::Result;\nuse super::{constants, helpers};\nuse http::request::Builder;\nuse http::request::Parts;\nuse http::Method;\nuse hyper::body::Bytes;\nuse hyper::Request;\nuse hyper::Uri;\nuse itertools::Itertools;\nuse std::collections::HashMap;\nuse crate::proxy_agent_shared::misc_helpers;\nuse http_body_util::combinators::BoxBody;\nuse serde::de::DeserializeOwned;\npub use crate::vx_ext_send::send_request;"):
             u.take(hc, "LF", "const")
             hit = hc.item("headers_to_canonicalized_string", "fn")
             if len(hit["loops"]) != 2 or any(l["kind"] != "for" for l in hit["loops"]):
@@ -364,10 +441,12 @@ def build(u):
                     (tuple(L1["expr"]), None, "map: &'a HashMap<String, (String, String)>", "&map", "VxSortedKeys<'a>", SORTED_KEYS_ENS,
                      dict(name="vx_e11_sorted_keys", generics="<'a>", wrap="VxSortedKeys", body="map.keys().sorted()", local=True)),
                      # E9: `map[key]` (std::ops::Index for HashMap: panics if the key is absent) -- vstd has no IndexSpec for HashMap
-                    ("map[key].1.trim()", None, "map: &'a HashMap<String, (String, String)>, key: &String", "&map, key", "&'a str", """
+                    ("map[key]", None, "map: &'a HashMap<String, (String, String)>, key: &String", "&map, key", "&'a (String, String)", """
     requires map@.contains_key(*key),
-    ensures r@ == trim(map@[*key].1@),""", dict(name="vx_e9_map_index_value_trim", generics="<'a>", local=True))],
-                e6=[("h", None, ["$@", "trim(map@[*key].1@)", "$@"])],
+    ensures *r == map@[*key],""", dict(name="vx_e9_map_index", generics="<'a>", local=True, body="&map[key]")),
+                    # the line's text: format! moved into a stub whose contract is generated from the literal in the tree; the
+                    # argument expressions (incl. `.trim()`) stay in the verified body
+                    fmt_e9_pos(u, hc, hit, 0, ["&String", "&str", "&String"], ["$@", "$@", "$@"], "vx_e9_fmt_header_line", wrap=[False, False, True])],
                 hints=[
                     ("value.to_str()", None, "before", HDR_H1),
                     ("map.insert(", None, "after", HDR_H2),
@@ -463,10 +542,137 @@ def build(u):
         ensures r matches Ok(req) ==> box_body_bytes(req_body(req)) == opt_slice(body),  // @C04.build_request.body_sent_is_the_body_signed
                 r matches Ok(req) ==> (key is Some && key_guid is Some ==> signed_request(req, key_guid->0@, key->0@, opt_slice(body))),  // @C04+C10.build_request.signed_last_over_own_parts_key_id_paired_with_its_mac
 """)
+            u.take_fn(hc, "read_response_body", external_body=True)
+            git = hc.item("get", "fn")
+            sends = [c for c in git["calls"] if c["kind"] == "path" and c["callee"] == "send_request"]
+            aw = [a for a in git["awaits"] if sends and a["base"] == sends[0]["span"]]
+            if len(sends) != 1 or len(aw) != 1:
+                raise Undecided("get: expected one awaited send_request call")
+            u.take_fn(hc, "get",
+                pre_body="broadcast use axiom_to_string_uri;",
+                e9=[("Method::GET", None, "", "", "Method", "", dict(name="vx_e9_method_get", local=True)),
+                    # E9: send_request is generic over the body (`B::Error: Into<Box<dyn Error + Send + Sync>>` is not expressible in
+                    # Verus); the call moves verbatim into a stub. Its precondition is the capability "what is sent upstream is a
+                    # request produced by build_request for this (key id, key)".
+                    (tuple(aw[0]["span"]), None, "host: &String, port: u16, request: Request<BoxBody<Bytes, hyper::Error>>, log_fun: F, Ghost(key_guid): Ghost<Option<String>>, Ghost(key): Ghost<Option<String>>",
+                     "&host, port, request, log_fun, Ghost(key_guid), Ghost(key)", "Result<hyper::Response<hyper::body::Incoming>>", """
+    requires key is Some && key_guid is Some ==> signed_request(request, key_guid->0@, key->0@, Seq::<u8>::empty()) && latched(key_guid->0@, key->0@),  // @C04+C10.get.sends_the_request_signed_by_build_request""",
+                     dict(name="vx_e9_send_request", local=True, is_async=True, generics="<F: Fn(String) + Send + 'static>", body="send_request(host, port, request, log_fun).await")),
+                    ((git["calls"][5]["span"][0], git["calls"][5]["span"][1]), None, "full_url: &Uri, status: hyper::StatusCode", "full_url, status", "Result<T>", "    ensures r is Err,",
+                     dict(name="vx_e9_server_error", local=True, generics="<T>")),
+                    ],
+                contract="""
+        requires pair_ok(key_guid, key),  // @C10.get.key_id_and_key_latched_together
+                 forall|k: String| headers@.contains_key(k) ==> vis(#[trigger] headers@[k]@),  // @C13.get.caller_header_values_visible_ascii
+""")
             u.take_fn(hc, "should_skip_sig",
                 pre_body="broadcast use axiom_to_string_uri;\nproof { lits_skip(); }",
-                e9=[("hyper::Method::PUT", None, "", "", "hyper::Method", "    ensures method_text(r) == \"PUT\"@,", dict(name="vx_e9_method_put", local=True)),
-                    ("hyper::Method::POST", None, "", "", "hyper::Method", "    ensures method_text(r) == \"POST\"@,", dict(name="vx_e9_method_post", local=True))],
+                e9=[("hyper::Method::PUT", "all", "", "", "hyper::Method", "    ensures method_text(r) == \"PUT\"@,", dict(name="vx_e9_method_put", local=True)),
+                    ("hyper::Method::POST", "all", "", "", "hyper::Method", "    ensures method_text(r) == \"POST\"@,", dict(name="vx_e9_method_post", local=True))],
                 contract="""
         ensures r == skip_spec(*method, *relative_uri),  // @C04.should_skip_sig.exactly_the_two_documented_uploads
+""")
+
+    # ---- C10: the key keeper's shared state as the signing sites see it: ONE actor message per wrapper call ----
+    with u.mod("shared_state"):
+        with u.mod("key_keeper_wrapper", uses="use crate::common::result::Result;\nuse crate::key_keeper::key::Key;"):
+            u.placeholder_ext(kkw, ["KeyKeeperSharedState"], "vx_ph_kkw")
+            with u.impl_(kkw, "KeyKeeperSharedState"):
+                # each of these sends one GetKey message and projects one field of the reply (key_keeper_wrapper.rs); between two
+                # calls the actor may process SetKey messages of the key keeper task, so the two replies are unrelated
+                u.take_fn(kkw, "KeyKeeperSharedState::get_current_key_value", external_body=True, contract="""
+        ensures r matches Ok(Some(v)) ==> exists|k: Key| key_record(k) && #[trigger] k.key@ == v@,
+""")
+                u.take_fn(kkw, "KeyKeeperSharedState::get_current_key_guid", external_body=True, contract="""
+        ensures r matches Ok(Some(g)) ==> exists|k: Key| key_record(k) && #[trigger] k.guid@ == g@,
+""")
+                if kkw.has_item("KeyKeeperSharedState::get_current_key"):
+                    # (after the repair of F5) one GetKey message returning the whole record
+                    u.take_fn(kkw, "KeyKeeperSharedState::get_current_key", external_body=True, contract="""
+        ensures r matches Ok(Some(k)) ==> key_record(k),
+""")
+    with u.mod("host_clients"):
+        with u.mod("goal_state"):
+            u.take_ext(gst, [i["path"] for i in gst.index["items"] if i["kind"] == "struct"], "vx_ext_goal_state", uses="use serde_derive::{Deserialize, Serialize};")
+        with u.mod("instance_info"):
+            u.take_ext(iin, [i["path"] for i in iin.index["items"] if i["kind"] == "struct"], "vx_ext_instance_info", uses="use serde_derive::{Deserialize, Serialize};")
+        with u.mod("wire_server_client", uses="use crate::host_clients::goal_state::{GoalState, SharedConfig};\nuse crate::common::{error::{Error, WireServerErrorType}, hyper_client, logger, result::Result};\nuse crate::shared_state::key_keeper_wrapper::KeyKeeperSharedState;\nuse http::Method;\nuse hyper::Uri;\nuse std::collections::HashMap;"):
+            u.take(wsc, "WireServerClient", "struct")
+            u.take(wsc, "GOALSTATE_URI", "const")
+            with u.impl_(wsc, "WireServerClient"):
+                site_fn(u, wsc, "WireServerClient::get_goalstate", "GoalState")
+                site_fn(u, wsc, "WireServerClient::get_shared_config", "SharedConfig")
+        with u.mod("imds_client", uses="use super::instance_info::InstanceInfo;\nuse crate::common::{error::Error, hyper_client, logger, result::Result};\nuse crate::shared_state::key_keeper_wrapper::KeyKeeperSharedState;\nuse hyper::Uri;\nuse std::collections::HashMap;"):
+            u.take(imc, "ImdsClient", "struct")
+            u.take(imc, "IMDS_URI", "const")
+            with u.impl_(imc, "ImdsClient"):
+                site_fn(u, imc, "ImdsClient::get_imds_instance_info", "InstanceInfo")
+
+    # ---- C10 at the proxied-request signing site (proxy_server.rs handle_request_with_signature; the rest of that function is
+    #      under contract in unit `handler`): E5c slice of the expression that reads the (key, key id) pair ----
+    hs = ps.item("ProxyServer::handle_request_with_signature", "fn")
+    body_txt = ps.s(hs["body"][0], hs["body"][1])
+    head = "if let (Some(key), Some(key_guid)) = "
+    one_msg = [l for l in hs["lets"] if l["init"] is not None and ".get_current_key()" in re.sub(r"\s+", "", ps.s(l["init"][0], l["init"][1]))]
+    span = None
+    if len(one_msg) == 1 and re.sub(r"\s+", "", ps.s(one_msg[0]["pat"][0], one_msg[0]["pat"][1])) == "(current_key_value,current_key_guid)":
+        # (after the repair of F5) `let (current_key_value, current_key_guid) = match ...get_current_key().await.. { .. };`
+        span = (one_msg[0]["init"][0], one_msg[0]["init"][1])
+    elif body_txt.count(head) == 1 and "get_current_key_value()" in body_txt:
+        off = hs["body"][0] + len(body_txt[:body_txt.index(head) + len(head)].encode())
+        # the tuple expression: from its '(' to the matching ')'
+        depth, j = 0, off
+        while True:
+            ch = ps.b[j:j + 1]
+            if ch == b"(":
+                depth += 1
+            elif ch == b")":
+                depth -= 1
+                if depth == 0:
+                    break
+            j += 1
+        span = (off, j + 1)
+    if span is not None:
+        off, j = span[0], span[1] - 1
+        with u.mod("shared_state_others"):
+            # E13 placeholders for the other actor handles held by ProxyServer (never looked into)
+            for (rel, nm) in (("agent_status_wrapper", "AgentStatusSharedState"), ("provision_wrapper", "ProvisionSharedState"), ("redirector_wrapper", "RedirectorSharedState"),
+                              ("proxy_server_wrapper", "ProxyServerSharedState"), ("telemetry_wrapper", "TelemetrySharedState")):
+                u.placeholder_ext(u.src("proxy_agent/src/shared_state/%s.rs" % rel), [nm], "vx_ph_" + rel)
+            u.raw("#[verifier::external_type_specification] #[verifier::external_body]\npub struct ExCancellationToken(tokio_util::sync::CancellationToken);")
+        with u.mod("proxy"):
+            with u.mod("proxy_server", uses="use crate::shared_state::key_keeper_wrapper::KeyKeeperSharedState;\nuse crate::shared_state_others::*;\nuse tokio_util::sync::CancellationToken;"):
+                u.take(ps, "ProxyServer", "struct")
+                u.raw("impl ProxyServer {")
+                u.slice_fn(ps, "ProxyServer::handle_request_with_signature", "vx_slice_read_key_and_key_id", off, j + 1, "&self", ret_type="(Option<String>, Option<String>)", is_async=True,
+                           contract="""
+        ensures pair_ok(r.1, r.0),  // @C10.handle_request_with_signature.key_id_and_key_latched_together
+""", what="(scrutinee of the `if let (Some(key), Some(key_guid))` that guards the signing block)")
+                u.raw("}")
+    else:
+        raise Undecided("handle_request_with_signature: the expression reading the (key, key id) pair was not found")
+        u.notes.append("handle_request_with_signature no longer reads the pair with `if let (Some(key), Some(key_guid)) = (..)`: C10 slice not generated")
+
+    # ---- C10 at the key-attestation call (key.rs attest_key): the pair is the two fields of ONE Key record ----
+    ak = key.item("attest_key", "fn")
+    merrs = [c for c in ak["calls"] if c["kind"] == "method" and c["callee"] == "map_err"]
+    errs = [c for c in ak["calls"] if c["kind"] == "path" and c["callee"] == "Err"]
+    if len(merrs) != 2 or len(errs) != 1 or len(ak["awaits"]) != 1:
+        raise Undecided("attest_key: call structure changed")
+    with u.mod("key_keeper_attest", uses="use crate::common::{constants, error::{Error, KeyErrorType}, hyper_client, logger, result::Result};\nuse crate::key_keeper::key::Key;\nuse http::{Method, StatusCode};\nuse hyper::Uri;\nuse std::collections::HashMap;\nuse hyper::Request;\nuse hyper::body::Bytes;\nuse http_body_util::combinators::BoxBody;"):
+        ext_types_and_impls(u, key, "vx_ext_key_action", "use std::fmt::{Display, Formatter};", ["KeyAction"], ["<KeyAction as Display>"])
+        u.take(key, "KEY_URL", "const")
+        u.take_fn(key, "attest_key",
+            pre_body=ATT_PRE,
+            e9=[(tuple(merrs[0]["span"]), None, "url: String, base_url: &Uri", "url, base_url", "Result<Uri>", "", dict(name="vx_e9_parse_attest_url", local=True)),
+                ("Method::POST", None, "", "", "Method", "", dict(name="vx_e9_method_post2", local=True)),
+                (tuple(merrs[1]["span"]), None, "host: &String, port: u16, request: Request<BoxBody<Bytes, hyper::Error>>, Ghost(g): Ghost<Seq<char>>, Ghost(k): Ghost<Seq<char>>",
+                 "&host, port, request, Ghost(key.guid@), Ghost(key.key@)", "Result<hyper::Response<hyper::body::Incoming>>", """
+    requires signed_request(request, g, k, Seq::<u8>::empty()) && latched(g, k),  // @C04+C10.attest_key.sends_the_request_signed_by_build_request""",
+                 dict(name="vx_e9_send_attest_request", local=True, is_async=True)),
+                ("StatusCode::OK", None, "", "", "StatusCode", "    ensures status_code(r) == 200,", dict(name="vx_e9_status_ok", local=True)),
+                (tuple(errs[0]["span"]), None, "response: &hyper::Response<hyper::body::Incoming>", "&response", "Result<()>", "    ensures r is Err,", dict(name="vx_e9_attest_response_error", local=True)),
+                ],
+            contract="""
+        requires key_record(*key),   // the caller attests ONE key record (the one the host just issued)
 """)
